@@ -22,7 +22,10 @@ CLAUSE → THEOREM TABLE (R1 review; property text in properties.jsonl)
                      values in [0,1]; evaluated by the harness on every fitted model (relation `C10.eg_pmf_range.hyp`);
                      that the EG loop produces such weights is C08's subject.
   2  EG: positive probability = `weights_`-weighted mixture of the stored predictors' outputs
-       `eg_pmf_is_mixture`, `eg_pmf_order_irrelevant`
+       `eg_pmf_is_mixture`, `eg_pmf_order_irrelevant`; the mask, the `.dot` pairing, the `[1 − p, p]` columns, the
+       column `[:, 1]`, the `>=` and the `* 1` of `_pmf_predict` / `predict` are LIFTED (`Generated/EgPredict.lean`) and
+       the model computes with them: `eg_mask_lifted`, `eg_dot_lifted`, `eg_pmf_row_lifted`, `eg_predict_label_lifted`,
+       `eg_predict_deterministic`
   3  thresholder: depends only on the row's score and group
        `pmf_depends_only_on_score_group`, `thresholder_selects_group`, `thresholder_unseen_group`
        (the model is row-wise BY CONSTRUCTION; what ties the real mask assignment to it is the correspondence
@@ -374,8 +377,8 @@ theorem eg_pmf_range_needs_sum :
   decide +kernel
 
 /-- the reported row `(1 - p, p)` of `ExponentiatedGradient._pmf_predict` is a valid distribution under the same
-    hypotheses.  (The column expression `np.concatenate((1 - positive_probs, positive_probs), axis=1)` is NOT lifted;
-    the harness compares both reported columns with `1 - p` and `p`.) -/
+    hypotheses.  (The column expression `np.concatenate((1 - positive_probs, positive_probs), axis=1)` is lifted:
+    `eg_pmf_row_lifted` below; the harness also compares both reported columns with `1 - p` and `p`.) -/
 theorem eg_pmf_row_distribution (preds : List Rat) (weights : List (Nat × Rat))
     (hnd : (weights.map (·.1)).Nodup) (hw : ∀ e ∈ weights, 0 ≤ e.2)
     (hsum : (weights.map (·.2)).sum = 1)
@@ -394,6 +397,77 @@ example :
     let w : List (Nat × Rat) := [(0, 1/2), (3, 0), (2, 1/4), (1, 1/4)]
     (w.map (·.1)).Nodup ∧ (∀ e ∈ w, 0 ≤ e.2) ∧ (w.map (·.2)).sum = 1 ∧ (∀ e ∈ w, e.1 < preds.length) ∧
     (∀ e ∈ w, 0 ≤ preds.getD e.1 0 ∧ preds.getD e.1 0 ≤ 1) ∧ egPositive preds w = 3/4 := by
+  decide +kernel
+
+/-! ### ExponentiatedGradient: the LIFTED `_pmf_predict` / `predict` text (`Generated/EgPredict.lean`)
+
+`Pmf.maskedPred`, `egPositive`, `egPmfRow`, `egLabel` are computed with the zero-weight mask, the `.dot` pairing, the two
+returned columns, the column index `[:, 1]`, the comparison and the `* 1` lifted from the source on every run.  The
+theorems below state what that text means; an edit of any of these fragments changes the generated definitions and the
+corresponding theorem (and `eg_pmf_is_mixture` … through `Lemmas/Pmf.lean:egPositive_eq_sum`) stops checking. -/
+
+/-- the zero-weight mask: a stored predictor whose weight is exactly 0 contributes the column `0`, every other one its own
+    output — so the mask never changes the mixture (`eg_pmf_is_mixture`) and only saves evaluating unused predictors -/
+theorem eg_mask_lifted (preds : List Rat) (weights : List (Nat × Rat)) (t : Nat) :
+    maskedPred preds weights t = (if weightOf weights t = 0 then 0 else preds.getD t 0) ∧
+    maskedPred preds weights t * weightOf weights t = preds.getD t 0 * weightOf weights t := by
+  unfold maskedPred EgPredict.egColumn
+  refine ⟨rfl, ?_⟩
+  by_cases h : weightOf weights t = 0 <;> simp [h]
+
+/-- `pred[self.weights_.index].dot(self.weights_)` pairs every weight with the column of ITS OWN predictor id, also when
+    `weights_` does not list the ids in order (the LP step appends ids; `eg_pmf_order_irrelevant`) -/
+theorem eg_dot_lifted (preds : List Rat) (weights : List (Nat × Rat)) :
+    egPositive preds weights = (weights.map (fun e => maskedPred preds weights e.1 * e.2)).sum := by
+  unfold egPositive
+  rw [if_pos (by rfl : EgPredict.dotById = true)]
+
+/-- the reported row is `[1 − p, p]` with `p` the mixture: the two columns sum to one for EVERY input, column 1 is the
+    positive probability -/
+theorem eg_pmf_row_lifted (preds : List Rat) (weights : List (Nat × Rat)) :
+    egPmfRow preds weights = (1 - egPositive preds weights, egPositive preds weights) ∧
+    (egPmfRow preds weights).1 + (egPmfRow preds weights).2 = 1 := by
+  unfold egPmfRow EgPredict.col0 EgPredict.col1
+  exact ⟨rfl, by ring⟩
+
+/-- `predict` (classification): `positive_probs = _pmf_predict(X)[:, 1]`, label `(positive_probs >= u) * 1` — the label
+    is 1 exactly when the row's uniform draw is at most the REPORTED POSITIVE probability (column 1, not column 0), and
+    0 otherwise: for `u` uniform on [0,1) the label is 1 with probability `p` (0 ≤ p < 1).  It is the same rule as the
+    thresholder's `bernoulli`, which the driver runs on the reported column. -/
+theorem eg_predict_label_lifted (preds : List Rat) (weights : List (Nat × Rat)) (u : Rat) :
+    (egLabel preds weights u = 1 ↔ u ≤ egPositive preds weights) ∧
+    (egLabel preds weights u = 0 ∨ egLabel preds weights u = 1) ∧
+    egLabel preds weights u = bernoulli (egPositive preds weights) u := by
+  have hrow := (eg_pmf_row_lifted preds weights).1
+  have key : egLabel preds weights u = if u ≤ egPositive preds weights then 1 else 0 := by
+    unfold egLabel EgPredict.positiveCol EgPredict.drawsOne EgPredict.labelScale
+    rw [hrow]
+    simp only [ge_iff_le, decide_eq_true_eq]
+  refine ⟨?_, ?_, ?_⟩
+  · rw [key]; split <;> simp_all
+  · rw [key]; split <;> simp
+  · rw [key]
+    by_cases h : u ≤ egPositive preds weights
+    · rw [if_pos h, (bernoulli_eq_one_iff _ _).mpr h]
+    · rw [if_neg h]
+      rcases bernoulli_zero_or_one (egPositive preds weights) u with h0 | h1
+      · exact h0.symm
+      · exact absurd ((bernoulli_eq_one_iff _ _).mp h1) h
+
+/-- hence `predict` is deterministic where the reported probability is 0 or 1 (u in (0,1)), and labels are in {0,1} -/
+theorem eg_predict_deterministic (preds : List Rat) (weights : List (Nat × Rat)) (u : Rat) (h0 : 0 < u) (h1 : u < 1) :
+    (egPositive preds weights = 1 → egLabel preds weights u = 1) ∧
+    (egPositive preds weights = 0 → egLabel preds weights u = 0) := by
+  obtain ⟨hiff, hor, _⟩ := eg_predict_label_lifted preds weights u
+  constructor
+  · intro hp; exact hiff.mpr (by rw [hp]; exact le_of_lt h1)
+  · intro hp
+    rcases hor with h | h
+    · exact h
+    · have := hiff.mp h; rw [hp] at this; exact absurd h0 (not_lt.mpr this)
+
+example : egPmfRow [1, 0, 1] [(0, 1/2), (2, 1/4), (1, 1/4)] = (1/4, 3/4) ∧
+    egLabel [1, 0, 1] [(0, 1/2), (2, 1/4), (1, 1/4)] (1/2) = 1 ∧ egLabel [1, 0, 1] [(0, 1/2), (2, 1/4), (1, 1/4)] (7/8) = 0 := by
   decide +kernel
 
 /-! ### the Bernoulli draw `(p >= u) * 1` -/
@@ -533,7 +607,7 @@ theorem eg_regression_returns_stored_value (preds : List Rat) (weights : List (N
   refine ⟨_, ht, hpos, ?_⟩
   unfold egRegPredictById choice
   rw [List.getElem?_eq_getElem (by simpa using ht)]
-  simp only [List.getElem_map, List.getElem_range, maskedPred, if_neg (ne_of_gt hpos), List.getD,
+  simp only [List.getElem_map, List.getElem_range, maskedPred_def, if_neg (ne_of_gt hpos), List.getD,
     List.getElem?_eq_getElem ht, Option.getD_some]
 
 /-- non-vacuity (`eg_regression_byid_own_weight`, `eg_regression_returns_stored_value`): the F7 shape — `weights_.index`
@@ -560,10 +634,10 @@ theorem eg_regression_positional_counterexample (a b c d u : Rat) (h1 : 2/3 ≤ 
   have e2 : (3:Rat)⁻¹ + 3⁻¹ ≤ u := by norm_num at h1 ⊢; linarith
   have e3 : ¬ ((3:Rat)⁻¹ + 3⁻¹ + 3⁻¹ ≤ u) := by intro h; norm_num at h; linarith
   constructor
-  · simp [egRegPredict, choice, choiceIdx, choiceIdxFrom, w, maskedPred, weightOf, List.range, List.range.loop]
+  · simp [egRegPredict, choice, choiceIdx, choiceIdxFrom, w, maskedPred_def, weightOf, List.range, List.range.loop]
     rw [if_pos e1, if_pos e2, if_neg e3]
     rfl
-  · simp [egRegPredictById, choice, choiceIdx, choiceIdxFrom, w, maskedPred, weightOf, List.range, List.range.loop]
+  · simp [egRegPredictById, choice, choiceIdx, choiceIdxFrom, w, maskedPred_def, weightOf, List.range, List.range.loop]
     rw [if_pos e1, if_pos e2, if_neg e3, if_pos e2]
     rfl
 
